@@ -176,16 +176,15 @@ class JBIG2StreamReader:
         length: int,
         field: bytes,
     ) -> int:
-        if length:
-            if (
-                cast(JBIG2SegmentFlags, segment["flags"])["type"]
-                == SEG_TYPE_IMMEDIATE_GEN_REGION
-            ) and (length == DATA_LEN_UNKNOWN):
-                raise NotImplementedError(
-                    "Working with unknown segment length is not implemented yet",
-                )
-            else:
-                segment["raw_data"] = self.stream.read(length)
+        if (
+            cast(JBIG2SegmentFlags, segment["flags"])["type"]
+            == SEG_TYPE_IMMEDIATE_GEN_REGION
+        ) and (length == DATA_LEN_UNKNOWN):
+            raise NotImplementedError(
+                "Working with unknown segment length is not implemented yet",
+            )
+        # a segment without data (e.g. end of page) has empty data
+        segment["raw_data"] = self.stream.read(length)
 
         return length
 
